@@ -46,6 +46,19 @@ def translate(pattern: str):
 
 
 def _seq(items):
+    items = list(items)
+    for i, (op, av) in enumerate(items):
+        if op in (sre_constants.ASSERT, sre_constants.ASSERT_NOT):
+            # look-ahead: the rest of this sequence must (not) start with the asserted expression
+            direction, sub = av
+            if direction != 1:
+                raise Unsupported('look-behind')
+            ahead = z3.Concat(_seq(list(sub)), z3.Star(ANY))
+            if op is sre_constants.ASSERT_NOT:
+                ahead = z3.Complement(ahead)
+            rest = z3.Intersect(ahead, _seq(items[i + 1:]))
+            head = items[:i]
+            return z3.Concat(_seq(head), rest) if head else rest
     parts = [_node(op, av) for op, av in items]
     if not parts:
         return z3.Re(z3.StringVal(''))
@@ -53,6 +66,20 @@ def _seq(items):
     for p in parts[1:]:
         r = z3.Concat(r, p)
     return r
+
+
+def _category(cat):
+    """ASCII reading of \\d \\w \\s (exact on ASCII strings only: callers restrict the alphabet)."""
+    digit = _range(48, 57)
+    word = _union([digit, _range(65, 90), _range(97, 122), _char(95)])
+    space = _union([_char(c) for c in (32, 9, 10, 13, 11, 12, 28, 29, 30, 31)])
+    table = {sre_constants.CATEGORY_DIGIT: digit, sre_constants.CATEGORY_WORD: word, sre_constants.CATEGORY_SPACE: space}
+    if cat in table:
+        return table[cat]
+    neg = {sre_constants.CATEGORY_NOT_DIGIT: digit, sre_constants.CATEGORY_NOT_WORD: word, sre_constants.CATEGORY_NOT_SPACE: space}
+    if cat in neg:
+        return z3.Intersect(ANY, z3.Complement(neg[cat]))
+    raise Unsupported(f'category {cat}')
 
 
 def _union(parts):
@@ -79,6 +106,8 @@ def _node(op, av):
                 parts.append(_char(iav))
             elif iop is sre_constants.RANGE:
                 parts.append(_range(*iav))
+            elif iop is sre_constants.CATEGORY:
+                parts.append(_category(iav))
             else:
                 raise Unsupported(f'class item {iop}')
         u = _union(parts) if parts else z3.Empty(z3.ReSort(z3.StringSort()))
@@ -102,7 +131,7 @@ def _node(op, av):
     raise Unsupported(str(op))
 
 
-def language_difference(re_a, re_b, timeout_ms=20000, max_len=None):
+def language_difference(re_a, re_b, timeout_ms=20000, max_len=None, ascii_only=False):
     """A string in L(a) \\ L(b), or None if the solver proves inclusion; 'unknown' on timeout."""
     s = z3.String('w')
     sol = z3.Solver()
@@ -110,6 +139,8 @@ def language_difference(re_a, re_b, timeout_ms=20000, max_len=None):
     sol.add(z3.InRe(s, re_a), z3.Not(z3.InRe(s, re_b)))
     if max_len:
         sol.add(z3.Length(s) <= max_len)
+    if ascii_only:
+        sol.add(z3.InRe(s, z3.Star(_range(0, 127))))
     r = sol.check()
     if r == z3.unsat:
         return None
